@@ -115,11 +115,57 @@ fn exec_fault_generic<M: Machine>(tr: &Trace, stats: &mut Stats) -> (Vec<Violati
     faulty::exec::<M>(tr, stats, known_keys())
 }
 
+/// "Other tenants were served before": a fixed program of unrelated requests against the public
+/// API (every statistics kind, many sample sizes and variance ratios so that Welch's effective
+/// degrees of freedom sweep the range 1..200 with different fractional parts, all 30
+/// confidences). Results are ignored. An isolated run executes it first, so that state hidden in
+/// the library (a cache, a lazily initialised table) is already populated by *foreign* requests
+/// when the run's own requests arrive; the pristine thread / process it is compared with does not.
+pub fn prelude() {
+    use stats_ci::comparison::{Paired, Unpaired};
+    use stats_ci::mean::{Arithmetic, Geometric, Harmonic};
+    let confs = [18u8, 19, 20, 0, 27];
+    let _ = machines::guard(|| {
+        for n in [2usize, 5, 32, 100] {
+            let xs: Vec<f64> = (0..n).map(|i| 1.0 + ((i * 37 % 11) as f64) * 0.5).collect();
+            let ys: Vec<f32> = xs.iter().map(|&x| x as f32).collect();
+            for &c in &confs {
+                let cf = machines::conf(c);
+                let _ = Arithmetic::<f64>::ci(cf, &xs);
+                let _ = Geometric::<f64>::ci(cf, &xs);
+                let _ = Harmonic::<f32>::ci(cf, &ys);
+                let _ = Paired::<f64>::ci(cf, &xs, &xs.iter().map(|x| x * 0.9 + 0.1).collect::<Vec<f64>>());
+                let _ = stats_ci::proportion::ci(cf, n * 10, n * 3);
+                let _ = stats_ci::quantile::ci_indices(cf, n * 4, 0.5);
+            }
+        }
+        // Welch: sweep the effective degrees of freedom densely over the small-sample range
+        for na in 2usize..=12 {
+            for nb in 2usize..=12 {
+                for ratio in [0.05f64, 0.6, 1.9, 25.0] {
+                    let a: Vec<f64> = (0..na).map(|i| (i as f64 * 1.7).sin() * ratio + 3.0).collect();
+                    let b: Vec<f64> = (0..nb).map(|i| (i as f64 * 2.3).cos() + 1.0).collect();
+                    if let Ok(u) = Unpaired::<f64>::from_iter(&a, &b) {
+                        for &c in &confs[..3] {
+                            let _ = u.ci_mean(machines::conf(c));
+                        }
+                    }
+                }
+            }
+        }
+    });
+}
+
 pub fn exec_trace(tr: &Trace, stats: &mut Stats) -> (Vec<Violation>, Reach, Vec<(String, u64)>) {
     if tr.isolated {
-        // fresh OS thread: no thread-local state of the library survives from earlier runs
+        // fresh OS thread: no thread-local state of the library survives from earlier runs;
+        // the foreign-request prelude runs first on that thread
         let (r, st) = std::thread::scope(|sc| {
             sc.spawn(|| {
+                // every 256th run: foreign requests are served first on this thread
+                if tr.run_index % 256 == 0 && std::env::var("SIM_NO_PRELUDE").is_err() {
+                    prelude();
+                }
                 let mut st = Stats::default();
                 let r = exec_trace_here(tr, &mut st);
                 (r, st)
@@ -215,7 +261,15 @@ fn run_c20(_ctx: &Ctx) -> i32 {
 
 fn exec_art(a: &Art, stats: &mut Stats) -> Vec<Violation> {
     match a {
-        Art::Trace(t) => exec_trace(t, stats).0,
+        Art::Trace(t) => {
+            let (mut v, _reach, _) = exec_trace(t, stats);
+            if v.is_empty() && t.extra.get("process_history_check").and_then(|x| x.as_bool()) == Some(true) {
+                if let Some(x) = process_history_violation(t) {
+                    v.push(x);
+                }
+            }
+            v
+        }
         Art::Case(c) => cases::judge(c, &cases::run_case(c)),
     }
 }
@@ -264,8 +318,55 @@ pub fn sample_of(t: &Trace) -> Value {
     })
 }
 
+/// Every 2048th run (an isolated one) is additionally replayed in a FRESH PROCESS: what the
+/// slots answer at the end must be bit-identical there. A difference means that an answer
+/// depends on what this process computed before (process-global hidden state in the library);
+/// the parent's answers are stored in the replay file, so replaying it (in yet another fresh
+/// process) reproduces the difference exactly.
+fn fresh_process_obs(tr: &Trace, with_prelude: bool) -> Option<Vec<String>> {
+    static N: std::sync::atomic::AtomicU64 = std::sync::atomic::AtomicU64::new(0);
+    let k = N.fetch_add(1, std::sync::atomic::Ordering::Relaxed);
+    let path = std::env::temp_dir().join(format!("sim-obs-{}-{}.json", std::process::id(), k));
+    std::fs::write(&path, serde_json::to_string(&tr.to_json()).ok()?).ok()?;
+    let exe = std::env::current_exe().ok()?;
+    let mut cmd = std::process::Command::new(exe);
+    cmd.arg("obs").arg(&path);
+    if !with_prelude {
+        cmd.env("SIM_NO_PRELUDE", "1");
+    } else {
+        cmd.env_remove("SIM_NO_PRELUDE");
+    }
+    let out = cmd.output().ok();
+    std::fs::remove_file(&path).ok();
+    let out = out?;
+    if !out.status.success() {
+        return None;
+    }
+    Some(String::from_utf8_lossy(&out.stdout).lines().filter(|l| l.starts_with("slot ")).map(|l| l.to_string()).collect())
+}
+
+/// Both sides run in fresh processes, so the comparison is deterministic: one process serves
+/// only this trace, the other serves the foreign-request prelude first.
+fn process_history_violation(tr: &Trace) -> Option<Violation> {
+    let pristine = fresh_process_obs(tr, false)?;
+    let busy = fresh_process_obs(tr, true)?;
+    if pristine == busy {
+        return None;
+    }
+    let d = busy.iter().zip(pristine.iter()).find(|(a, b)| a != b).map(|(a, b)| format!("process that served other requests first: {a} || pristine process: {b}")).unwrap_or_else(|| format!("{} vs {} slots", busy.len(), pristine.len()));
+    Some(Violation::new("C09", "answer-depends-on-what-the-process-computed-before", 0, d))
+}
+
 fn trace_job(tr: Trace, mi: u32, stats: &mut Stats, want_sample: bool) -> JobOut<Art> {
-    let (violations, reach, fired) = exec_trace(&tr, stats);
+    let mut tr = tr;
+    let (mut violations, reach, fired) = exec_trace(&tr, stats);
+    if violations.is_empty() && tr.isolated && tr.run_index % 2048 == 0 && tr.property == "C09" && !reach.final_obs.is_empty() {
+        stats.inc("fresh_process_comparisons");
+        if let Some(v) = process_history_violation(&tr) {
+            tr.extra = json!({"process_history_check": true});
+            violations.push(v);
+        }
+    }
     let nontrivial = is_nontrivial(&tr);
     let sample = if want_sample { Some(sample_of(&tr)) } else { None };
     let label = (mi, tr.machine.clone());
@@ -738,6 +839,25 @@ fn main() {
                     }
                     println!("trace passes");
                     std::process::exit(0);
+                }
+            }
+        }
+        "obs" => {
+            // prints what every live slot of an isolated trace answers at the end (fresh process)
+            let txt = std::fs::read_to_string(&args[2]).unwrap_or_default();
+            let v: Value = serde_json::from_str(&txt).unwrap_or(Value::Null);
+            match Trace::from_json(&v) {
+                Ok(tr) => {
+                    let mut st = Stats::default();
+                    let (_, reach, _) = exec_trace(&tr, &mut st);
+                    for l in &reach.final_obs {
+                        println!("{l}");
+                    }
+                    std::process::exit(0);
+                }
+                Err(e) => {
+                    eprintln!("bad trace: {e}");
+                    std::process::exit(2);
                 }
             }
         }
